@@ -590,17 +590,30 @@ class Interp:
                         raise AnalysisError(f"f-string over {x!r}")
                     out.append(str(x))
             return "".join(out)
-        if isinstance(e, (ast.ListComp, ast.GeneratorExp)):
-            if len(e.generators) != 1:
-                return self._bad(e)
-            g = e.generators[0]
+        if isinstance(e, (ast.ListComp, ast.GeneratorExp, ast.SetComp)):
             out = []
-            for x in list(self.eval(g.iter, env)):
-                sub = dict(env)
-                self.assign(g.target, x, sub)
-                if all(self.truth(c, self.eval(c, sub)) for c in g.ifs):
+
+            def gen(i, sub):
+                if i == len(e.generators):
                     out.append(self.eval(e.elt, sub))
+                    return
+                g = e.generators[i]
+                for x in list(self.eval(g.iter, sub)):
+                    s2 = dict(sub)
+                    self.assign(g.target, x, s2)
+                    if all(self.truth(c, self.eval(c, s2)) for c in g.ifs):
+                        gen(i + 1, s2)
+            gen(0, env)
             return out
+        if isinstance(e, ast.Lambda):
+            fn = ast.FunctionDef(name="<lambda>", args=e.args,
+                                 body=[ast.Return(value=e.body)],
+                                 decorator_list=[], lineno=e.lineno,
+                                 col_offset=e.col_offset)
+            return Closure(fn, env)
+        if isinstance(e, ast.Dict):
+            return {self.eval(k, env): self.eval(v, env)
+                    for k, v in zip(e.keys, e.values)}
         return self._bad(e)
 
     def _elts(self, elts, env):
@@ -679,12 +692,30 @@ class Interp:
             base = self.eval(e.func.value, env)
             if isinstance(base, str):
                 return base.join(args[0])
+        short = fname.split(".")[-1]
+        if fname in ("sorted", "min", "max") and isinstance(kw.get("key"),
+                                                              Closure):
+            k = kw["key"]
+            return {"sorted": sorted, "min": min, "max": max}[fname](
+                args[0], key=lambda v_: self.call_function(k.fn, [v_], k.env))
         if fname in _BUILTINS:
             try:
-                return _BUILTINS[fname](*args)
+                return _BUILTINS[fname](*args, **kw)
             except TypeError:
                 raise AnalysisError(f"builtin {fname} on abstract values "
                                     f"{args!r}")
+        if short in ("itemgetter",) and len(args) == 1 and isinstance(
+                args[0], int):
+            i_ = args[0]
+            fn = ast.parse(f"lambda v: v[{i_}]", mode="eval").body
+            return self.eval(fn, {})
+        if short in ("index", "__index__") and len(args) == 1 and isinstance(
+                args[0], (int, Poly)) and not isinstance(args[0], bool):
+            return args[0]
+        if isinstance(e.func, ast.Name) and isinstance(
+                self.globals.get(e.func.id), Closure):
+            c = self.globals[e.func.id]
+            return self.call_function(c.fn, args, c.env)
         raise AnalysisError(f"call of {fname} is not modelled")
 
 
